@@ -16,7 +16,7 @@ use std::sync::Arc;
 
 use happylock::ThreadKey;
 
-use coll::{Acq, DynColl, DynGuard, KeyArg, Mode};
+use coll::{Acq, DynColl, DynGuard, KeyArg};
 use scen::{Built, Cs, Flavour, Op, Scen};
 use view::{GView, Item};
 use vlock::{ctl, plain_event, tid, Fault, Pending, Sentinel, CV, TID};
